@@ -92,6 +92,12 @@ pub fn derive(problem: &Value, solution: &Value, p: &mut Prng, stats: &mut RelSt
         if acts.iter().any(|(_, t, _)| t == "reload" || t == "recharge") {
             continue;
         }
+        // a tour with a clustered stop is not replayed in time by the oracle (and its jobs are served with other service
+        // times than outside of a cluster): nothing is known about the feasibility of its sub-sequences
+        let clustered = tour["stops"].as_array().into_iter().flatten().any(|s| s.get("parking").is_some() || s["activities"].as_array().into_iter().flatten().any(|a| a.get("commute").is_some()));
+        if clustered {
+            continue;
+        }
         let is_job = |i: usize| JOB_TYPES.contains(&acts[i].1.as_str());
         // the solver builds the initial tour of a relation by taking the k-th listing of a job id as the k-th task of the
         // job (pickups, deliveries, replacements, services, in document order): a multi-task job is only usable when the
